@@ -208,6 +208,20 @@ def _replay_sampled(model, contract):
     for _ in range(2):
         _run_sampled_sim(P, ps, None, [None], ["default"])
     bad = []
+    # with programs: the program set handed to run_sim must be a draw too
+    seen_progsets = []
+    pg = P.progsets[0]
+    for c in pg.covouts.values():
+        c.sigma = 0.01
+
+    def spy2(parset=None, progset=None, **kw):
+        seen_progsets.append(progset)
+        return orig(parset=parset, progset=progset, **kw)
+
+    P.run_sim = spy2
+    _run_sampled_sim(P, ps, pg, [at.ProgramInstructions(start_year=2018)], ["with programs"])
+    if any(x is pg for x in seen_progsets):
+        bad.append("the source program set itself was simulated although it has outcome uncertainty (no draw)")
     if any(s is ps for s in seen):
         bad.append("the source parameter set itself was simulated (no draw)")
     else:
